@@ -360,6 +360,15 @@ class Taint:
                 return join(l, r)
             if l.kind == 'tuple' and r.kind == 'tuple':
                 return AV(kind='tuple', elems=list(l.elems) + list(r.elems))
+        if isinstance(e.op, ast.Mult):
+            # noise scaled by a public number is noise (of that many times the scale)
+            for a_, b_, ae in ((l, r, e.left), (r, l, e.right)):
+                if b_.is_noise and not a_.anyt() and isinstance(b_.env, dict) and b_.env.get('scale') is not None:
+                    out = CLEAN()
+                    out.is_noise = True
+                    out.env = dict(b_.env)
+                    out.env['scale'] = ast.BinOp(left=ae, op=ast.Mult(), right=b_.env['scale'])
+                    return out
         if (l.is_noise or r.is_noise) and not isinstance(e.op, ast.Add):
             # noise * 0, noise - x ... : not the additive-noise primitive; the noise is just a public random value
             pass
@@ -411,6 +420,11 @@ class Taint:
             return r
         if b.kind in ('dict', 'list'):
             return join(b.v, AV(i.anyt(), why=i.reason()))
+        if b.is_noise and not i.anyt():
+            out = CLEAN()                       # a part of a buffer of noise draws is noise of the same scale
+            out.is_noise = True
+            out.env = b.env
+            return out
         it = i.anyt()
         if it and not b.anyt() and isinstance(e.ctx, ast.Load) and b.kind not in ('dict', 'list', 'tuple', 'func') and not isinstance(e.slice, ast.Slice):
             # a PUBLIC table read at positions given by private values: a value outside the table (a code not in the domain, an empty cell)
